@@ -60,8 +60,11 @@ def _desc(draw, tier):
         o['fields'] = draw(st.sampled_from(['default', 'lcN']))
         o['style'] = draw(st.sampled_from(['N', 'callorder']))
     else:
-        o['fields'] = draw(st.sampled_from(['idN', 'idN', 'id', 'N', 'noid', 'default']))
-        o['style'] = {'idN': draw(st.sampled_from(['id', 'N'])), 'id': 'id', 'N': 'N', 'noid': 'callorder', 'default': draw(st.sampled_from(['id', 'N', 'callorder']))}[o['fields']]
+        o['fields'] = draw(st.sampled_from(['idN', 'idN', 'id', 'N', 'noid', 'default', 'allfields', 'prog']))
+        if o['fields'] == 'prog' and not o['cleaned']:
+            o['fields'] = 'allfields'
+        o['style'] = {'idN': draw(st.sampled_from(['id', 'N'])), 'id': 'id', 'N': 'N', 'noid': 'callorder', 'default': draw(st.sampled_from(['id', 'N', 'callorder'])),
+                      'allfields': draw(st.sampled_from(['id', 'N', 'callorder'])), 'prog': draw(st.sampled_from(['id', 'N']))}[o['fields']]
     masks = []
     for p in o['files']:
         nh = len(cat['slabs'][p]['halos'])
@@ -160,8 +163,10 @@ def run_case(d):
 
 def _fields(o, lc):
     f = o['fields']
-    if f == 'all':
+    if f in ('all', 'allfields'):
         return 'all'
+    if f == 'prog':
+        return ['id', 'N', 'N_mainprog', 'v_L2com_mainprog', 'sigmav3d_L2com_mainprog', 'haloindex']
     if f == 'default':
         return 'DEFAULT_FIELDS'
     if f == 'lcN':
